@@ -461,6 +461,7 @@ def run_solve(op):
                     solver.plan = [dict(peer, keep_smt2=True)]
                     solver.n = 0
                     solver.calls = []
+                    solver.asked = {}
                     r = {"peer": peer, "outcome": None, "ids": None, "exc": None, "cost": None}
                     try:
                         optimizer = bo.BlockOptimizer(key, copy.deepcopy(sfs), params, tout)
@@ -479,13 +480,14 @@ def run_solve(op):
                         r["exc"] = "%s: %s" % (type(e).__name__, str(e)[:200])
                         r["frame"] = innermost_repo_frame(tb)
                     if solver.calls:
+                        r["queries"] = [(c["kind"], c["asserts"], c["softs"]) for c in solver.calls]
                         if rec["smt2"] is None:
                             rec["smt2"] = solver.calls[0]["smt2"]
                         reply = solver.prev_reply
                         m = _re.search(r"\(cost (\d+)\)", reply)
                         r["cost"] = int(m.group(1)) if m else None
                         r["head"] = reply.split("\n", 1)[0][:30]
-                        r["z3_error"] = "(error" in reply and "model is not available" not in reply
+                        r["z3_error"] = "(error" in reply and "model is not available" not in reply and "model generation not enabled" not in reply
                     rec["results"].append(r)
                 out.append(rec)
     finally:
